@@ -5,8 +5,8 @@ import (
 	"encoding/json"
 	"fmt"
 	"go/ast"
-	"go/printer"
 	"go/parser"
+	"go/printer"
 	"go/token"
 	"math/rand"
 	"reflect"
@@ -31,6 +31,8 @@ type c12Input struct {
 	// that sits in the middle of a line to the end of that line, so the comparison with a
 	// fresh parse of the printed text is made for block comments and newlines only.
 	Lines bool `json:"line_comments"`
+	// Reuse: all files of the group go through one Restorer and one FileRestorer
+	Reuse bool `json:"reuse_file_restorer"`
 }
 
 func orderedItems(f *ast.File) []string {
@@ -68,6 +70,15 @@ func c12Check(in c12Input) (key, what string) {
 	fset := token.NewFileSet()
 	type span struct{ base, size int }
 	var spans []span
+	var shared *decorator.Restorer
+	var sharedFR *decorator.FileRestorer
+	type kept struct {
+		fi    int
+		af    *ast.File
+		lines []int
+		text  string
+	}
+	var keep []kept
 	for fi, src := range in.Srcs {
 		f, err := decorator.Parse(src)
 		if err != nil {
@@ -96,10 +107,23 @@ func c12Check(in c12Input) (key, what string) {
 				d[i], d[j] = d[j], d[i]
 			}
 		}
-		r := decorator.NewRestorer()
-		r.Fset = fset
 		var af *ast.File
-		if pm := safely(func() { af, err = r.RestoreFile(f) }); pm != "" || err != nil {
+		restoreOne := func() {
+			if in.Reuse {
+				// one Restorer / one FileRestorer for every file of the group
+				if shared == nil {
+					shared = decorator.NewRestorer()
+					shared.Fset = fset
+					sharedFR = shared.FileRestorer()
+				}
+				af, err = sharedFR.RestoreFile(f)
+				return
+			}
+			r := decorator.NewRestorer()
+			r.Fset = fset
+			af, err = r.RestoreFile(f)
+		}
+		if pm := safely(restoreOne); pm != "" || err != nil {
 			return "c12-panic", fmt.Sprintf("file %d: RestoreFile failed: %v %s", fi, err, pm)
 		}
 		tf := fset.File(af.Package)
@@ -167,6 +191,7 @@ func c12Check(in c12Input) (key, what string) {
 		if b1.String() != b2.String() {
 			return "c12-repeat", fmt.Sprintf("file %d: printing the restored ast twice gives different text", fi)
 		}
+		keep = append(keep, kept{fi, af, append([]int(nil), tf.Lines()...), b1.String()})
 		if in.Lines {
 			continue
 		}
@@ -184,6 +209,23 @@ func c12Check(in c12Input) (key, what string) {
 			}
 		}
 	}
+	// files restored earlier keep their position space while later files are restored
+	for _, k := range keep {
+		tf := fset.File(k.af.Package)
+		ls := tf.Lines()
+		same := len(ls) == len(k.lines)
+		for i := 0; same && i < len(ls); i++ {
+			same = ls[i] == k.lines[i]
+		}
+		if !same {
+			return "c12-later-restore", fmt.Sprintf("file %d: its line table changed when later files were restored into the same FileSet", k.fi)
+		}
+		var b bytes.Buffer
+		pc := printer.Config{Mode: printer.UseSpaces | printer.TabIndent, Tabwidth: 8}
+		if err := pc.Fprint(&b, fset, k.af); err != nil || b.String() != k.text {
+			return "c12-later-restore", fmt.Sprintf("file %d: prints differently after later files were restored into the same FileSet", k.fi)
+		}
+	}
 	return "", ""
 }
 
@@ -192,14 +234,14 @@ func c12Prop(c *Ctx) {
 	srcs := oracleSources(c, c.N(24), 8000)
 	for i := 0; i < c.N(30); i++ {
 		n := 1 + c.Rng.Intn(4)
-		in := c12Input{Seed: c.Rng.Int63(), Dens: []int{0, 3, 8}[c.Rng.Intn(3)], Lines: c.Rng.Intn(3) == 0}
+		in := c12Input{Seed: c.Rng.Int63(), Dens: []int{0, 3, 8}[c.Rng.Intn(3)], Lines: c.Rng.Intn(3) == 0, Reuse: c.Rng.Intn(2) == 0}
 		for j := 0; j < n; j++ {
 			in.Srcs = append(in.Srcs, srcs[c.Rng.Intn(len(srcs))])
 		}
 		c.Res.Evaluations++
 		c.Res.seen(fmt.Sprint(in.Seed))
 		c.Res.hist("c12-files-per-fileset", fmt.Sprint(n))
-		c.Res.hist("c12-density", fmt.Sprintf("%d lines=%v", in.Dens, in.Lines))
+		c.Res.hist("c12-density", fmt.Sprintf("%d lines=%v reuse=%v", in.Dens, in.Lines, in.Reuse))
 		if key, what := c12Check(in); key != "" {
 			c.Res.fail(key, what, in)
 		}
